@@ -10,9 +10,9 @@
    the frames of the completed messages, in order, followed by the open frame of the bytes
    consumed so far — the same stream-level invariant [enc_inv] the flat encoder carries.
 
-   PARTIAL: the run stops (returns None) when a push meets the out-of-band branch of
-   mpt_queue_push (open block straddling the end of the storage, [no_oobb] false); that branch is
-   modelled and compared with the implementation, not proved. *)
+   All branches of mpt_queue_push are covered (aligned, upper part, lower part, out-of-band copy
+   of a straddling open block, align-and-retry, second push); the run returns None only if the
+   model itself reports a fault (which the theorem excludes). *)
 From MptV Require Import Base.Mem Base.Tactics C13.QueueModel C13.QueueProofs C13.QueueAlign
   Cobs.CobsModel Cobs.EncProofs Cobs.EncTheorems Cobs.EncShift Cobs.QueueCodec Cobs.QueuePushProofs
   Cobs.QueuePushTheorem Cobs.StreamRun Cobs.DecModel Cobs.DecComplete Cobs.StreamProofs.
@@ -33,36 +33,25 @@ Definition wire_writer (e : equeue) (n : nat) : res (equeue * list byte) :=
     Ok (mkeq wq (mke (ectx st) (edone st - k) (escr st)), bytes)
   end.
 
-Definition no_oobb (e : equeue) : bool :=
-  let q := eq_q e in let st := eq_st e in
-  (qoff q =? 0) || (qmax q - qoff q <=? edone st) || (escr st <=? qmax q - qoff q - edone st).
-
 (* state of a writer history: ring, bytes handed to the transport, completed messages, bytes
    of the open message consumed so far *)
 Record wh := mkwh { wh_e : equeue; wh_sent : list byte; wh_done : list (list byte); wh_cur : list byte }.
-
-Definition wh_guard (e : equeue) : bool :=
-  no_oobb e && (qoff (eq_q e) <? qmax (eq_q e)).
 
 (* a zero-length push IS the terminate call (mpt_queue_push: len = 0) *)
 Definition wh_step (v : variant) (s : wh) (o : wop) : option wh :=
   match o with
   | WData (x :: d) =>
-    if wh_guard (wh_e s) then
-      match equeue_push v (wh_e s) (Some (x :: d)) with
-      | Ok (EInt k, e') => Some (mkwh e' (wh_sent s) (wh_done s) (wh_cur s ++ firstn k (x :: d)))
-      | Ok (EErr _, e') => Some (mkwh e' (wh_sent s) (wh_done s) (wh_cur s))
-      | _ => None
-      end
-    else None
+    match equeue_push v (wh_e s) (Some (x :: d)) with
+    | Ok (EInt k, e') => Some (mkwh e' (wh_sent s) (wh_done s) (wh_cur s ++ firstn k (x :: d)))
+    | Ok (EErr _, e') => Some (mkwh e' (wh_sent s) (wh_done s) (wh_cur s))
+    | _ => None
+    end
   | WData [] | WTerm =>
-    if wh_guard (wh_e s) then
-      match equeue_push v (wh_e s) None with
-      | Ok (EInt _, e') => Some (mkwh e' (wh_sent s) (wh_done s ++ [wh_cur s]) [])
-      | Ok (EErr _, e') => Some (mkwh e' (wh_sent s) (wh_done s) (wh_cur s))
-      | _ => None
-      end
-    else None
+    match equeue_push v (wh_e s) None with
+    | Ok (EInt _, e') => Some (mkwh e' (wh_sent s) (wh_done s ++ [wh_cur s]) [])
+    | Ok (EErr _, e') => Some (mkwh e' (wh_sent s) (wh_done s) (wh_cur s))
+    | _ => None
+    end
   | WWire n =>
     match wire_writer (wh_e s) n with
     | Ok (e', bytes) => Some (mkwh e' (wh_sent s ++ bytes) (wh_done s) (wh_cur s))
@@ -78,6 +67,7 @@ Fixpoint wh_run (v : variant) (s : wh) (ops : list wop) : option wh :=
 
 (* the invariant of writer histories *)
 Definition wh_inv (v : variant) (s : wh) : Prop :=
+  qoff (eq_q (wh_e s)) < qmax (eq_q (wh_e s)) /\
   exists pre, frames_of v (wh_done s) pre /\ rinv v pre (wh_cur s) (wh_sent s) (wh_e s).
 
 Lemma frames_of_snoc v ms w m body : frames_of v ms w -> sdec v body = Some m -> nozero body = true ->
@@ -90,31 +80,33 @@ Proof.
     constructor; [assumption|assumption|]. apply IH; assumption.
 Qed.
 
-Lemma no_oobb_spec e : no_oobb e = true -> no_oob e.
+Lemma qcrop0_off_lt q n : qinv q -> n <= qlen q -> qoff q < qmax q ->
+  exists o, qcrop q 0 n = Ok (mkq (qbuf q) (qlen q - n) (qmax q) o) /\ o < qmax q.
 Proof.
-  unfold no_oobb, no_oob. cbn zeta. intros H.
-  apply Bool.orb_true_iff in H. destruct H as [H|H].
-  - apply Bool.orb_true_iff in H. destruct H as [H|H].
-    + left. apply Nat.eqb_eq. exact H.
-    + right. left. apply Nat.leb_le. exact H.
-  - right. right. apply Nat.leb_le. exact H.
+  intros (Hb & Hl & Ho) Hn Hlt. unfold qcrop, qdata, cidx.
+  destruct (Nat.ltb_spec (qmax q - qoff q) (qlen q)); cbn [Nat.eqb];
+    repeat cases_if; try lia; unfold set_off, set_len; cbn [qbuf qlen qmax qoff];
+    eexists; (split; [reflexivity|]); lia.
 Qed.
 
 Lemma wire_writer_inv v pre consumed sent e n e' bytes :
-  rinv v pre consumed sent e -> wire_writer e n = Ok (e', bytes) ->
-  rinv v pre consumed (sent ++ bytes) e'.
+  rinv v pre consumed sent e -> qoff (eq_q e) < qmax (eq_q e) -> wire_writer e n = Ok (e', bytes) ->
+  rinv v pre consumed (sent ++ bytes) e' /\ qoff (eq_q e') < qmax (eq_q e').
 Proof.
-  intros [[Hq Hl] Hinv] H. unfold wire_writer in H. pose proof Hq as (Hb & Hlm & Ho).
+  intros [[Hq Hl] Hinv] Hlt H. unfold wire_writer in H. pose proof Hq as (Hb & Hlm & Ho).
   set (k := Nat.min (edone (eq_st e)) n) in *.
   destruct (Nat.eqb_spec k 0) as [Hk|Hk].
-  { inversion H; subst e' bytes. rewrite app_nil_r. split; [split|]; assumption. }
+  { inversion H; subst e' bytes. rewrite app_nil_r. split; [split; [split|]; assumption|assumption]. }
   assert (Hkd : k <= edone (eq_st e)) by (unfold k; lia).
   pose proof (qget_spec (eq_q e) 0 k Hq ltac:(lia)) as Hg.
   destruct (Nat.leb_spec (0 + k) (qlen (eq_q e))) as [_|Hbad]; [|lia].
   rewrite Hg in H. unfold slice in H. cbn [skipn] in H.
   destruct (qcrop0_ok (eq_q e) k Hq ltac:(lia)) as (o & Hcrop & Hom & Hc).
+  destruct (qcrop0_off_lt (eq_q e) k Hq ltac:(lia) Hlt) as (o2 & Hcrop2 & Holt).
+  rewrite Hcrop in Hcrop2. inversion Hcrop2; subst o2. clear Hcrop2.
   rewrite Hcrop in H. cbn [bind] in H. inversion H; subst e' bytes. clear H.
   pose proof (contents_crop0 (eq_q e) k o Hq ltac:(lia) Hom Hc) as Hcc.
+  split; [|cbn [eq_q qoff qmax]; exact Holt].
   split; [split|]; cbn [eq_q eq_st].
   - unfold qinv. cbn [qbuf qlen qmax qoff]. lia.
   - cbn [qlen edone escr]. lia.
@@ -137,27 +129,20 @@ Proof.
   split; [assumption|]. apply EI_idle; [assumption| rewrite <- Hb; assumption | assumption | reflexivity].
 Qed.
 
-Lemma wh_guard_spec e : wh_guard e = true -> no_oob e /\ qoff (eq_q e) < qmax (eq_q e).
-Proof.
-  unfold wh_guard. intros H. apply andb_prop in H. destruct H as [H1 H2].
-  split; [apply no_oobb_spec; assumption|apply Nat.ltb_lt; assumption].
-Qed.
-
 Lemma wh_term_inv v s s' : variant_ok v -> wh_inv v s ->
-  (if wh_guard (wh_e s) then
-      match equeue_push v (wh_e s) None with
-      | Ok (EInt _, e') => Some (mkwh e' (wh_sent s) (wh_done s ++ [wh_cur s]) [])
-      | Ok (EErr _, e') => Some (mkwh e' (wh_sent s) (wh_done s) (wh_cur s))
-      | _ => None
-      end
-    else None) = Some s' -> wh_inv v s'.
+  match equeue_push v (wh_e s) None with
+  | Ok (EInt _, e') => Some (mkwh e' (wh_sent s) (wh_done s ++ [wh_cur s]) [])
+  | Ok (EErr _, e') => Some (mkwh e' (wh_sent s) (wh_done s) (wh_cur s))
+  | _ => None
+  end = Some s' -> wh_inv v s'.
 Proof.
-  intros Hv (pre & Hf & Hr) H.
-  destruct (wh_guard (wh_e s)) eqn:Hg; [|discriminate]. destruct (wh_guard_spec _ Hg) as [Hno Hlt].
-  pose proof (equeue_push_refines_partial v (wh_e s) (wh_sent s) pre (wh_cur s) None Hv Hr Hno Hlt) as Hp.
+  intros Hv (Hlt & pre & Hf & Hr) H.
+  pose proof (equeue_push_refines v (wh_e s) (wh_sent s) pre (wh_cur s) None Hv Hr Hlt) as Hp.
   destruct (equeue_push v (wh_e s) None) as [[r e']| |]; [|discriminate|discriminate].
-  cbn [push_ok norm_arg push_post] in Hp.
-  destruct r as [k|er|]; [| |discriminate]; inversion H; subst s'; clear H.
+  cbn [push_ok norm_arg] in Hp. destruct Hp as (Hp & Hm & Ho).
+  assert (Hlt' : qoff (eq_q e') < qmax (eq_q e')) by (destruct Ho as [Ho|Ho]; rewrite Ho, Hm; lia).
+  cbn [push_post] in Hp.
+  destruct r as [k|er|]; [| |discriminate]; inversion H; subst s'; clear H; (split; [exact Hlt'|]).
   - destruct (term_restart v pre (wh_cur s) (wh_sent s) e' Hp) as (body & Hs & Hz & Hr').
     exists (pre ++ body ++ [0%N]). cbn [wh_done wh_cur wh_sent wh_e]. split; [|exact Hr'].
     apply frames_of_snoc; assumption.
@@ -168,20 +153,45 @@ Theorem wh_step_inv v s o s' : variant_ok v -> wh_inv v s -> wh_step v s o = Som
 Proof.
   intros Hv Hi H. destruct o as [[|x d]| |n]; cbn [wh_step] in H.
   - apply (wh_term_inv v s s' Hv Hi H).
-  - destruct Hi as (pre & Hf & Hr).
-    destruct (wh_guard (wh_e s)) eqn:Hg; [|discriminate]. destruct (wh_guard_spec _ Hg) as [Hno Hlt].
-    pose proof (equeue_push_refines_partial v (wh_e s) (wh_sent s) pre (wh_cur s) (Some (x :: d)) Hv Hr Hno Hlt) as Hp.
+  - destruct Hi as (Hlt & pre & Hf & Hr).
+    pose proof (equeue_push_refines v (wh_e s) (wh_sent s) pre (wh_cur s) (Some (x :: d)) Hv Hr Hlt) as Hp.
     destruct (equeue_push v (wh_e s) (Some (x :: d))) as [[r e']| |]; [|discriminate|discriminate].
-    cbn [push_ok norm_arg push_post] in Hp.
-    destruct r as [k|er|]; [| |discriminate]; inversion H; subst s'; clear H; exists pre;
+    cbn [push_ok norm_arg] in Hp. destruct Hp as (Hp & Hm & Ho).
+    assert (Hlt' : qoff (eq_q e') < qmax (eq_q e')) by (destruct Ho as [Ho|Ho]; rewrite Ho, Hm; lia).
+    cbn [push_post] in Hp.
+    destruct r as [k|er|]; [| |discriminate]; inversion H; subst s'; clear H; (split; [exact Hlt'|]); exists pre;
       cbn [wh_done wh_cur wh_sent wh_e]; (split; [assumption|]).
     + destruct Hp as [_ Hp]. exact Hp.
     + exact Hp.
   - apply (wh_term_inv v s s' Hv Hi H).
-  - destruct Hi as (pre & Hf & Hr).
+  - destruct Hi as (Hlt & pre & Hf & Hr).
     destruct (wire_writer (wh_e s) n) as [[e' bytes]| |] eqn:Hw; [|discriminate|discriminate].
-    inversion H; subst s'; clear H. exists pre. cbn [wh_done wh_cur wh_sent wh_e]. split; [assumption|].
-    apply (wire_writer_inv v pre (wh_cur s) (wh_sent s) (wh_e s) n e' bytes Hr Hw).
+    inversion H; subst s'; clear H.
+    destruct (wire_writer_inv v pre (wh_cur s) (wh_sent s) (wh_e s) n e' bytes Hr Hlt Hw) as [Hr' Hlt'].
+    split; [exact Hlt'|]. exists pre. cbn [wh_done wh_cur wh_sent wh_e]. split; assumption.
+Qed.
+
+(* no history makes the model fault: every step is defined *)
+Theorem wh_step_total v s o : variant_ok v -> wh_inv v s -> exists s', wh_step v s o = Some s'.
+Proof.
+  intros Hv (Hlt & pre & Hf & Hr).
+  assert (Hpush : forall arg, match equeue_push v (wh_e s) arg with Ok (EInt _, _) | Ok (EErr _, _) => True | _ => False end).
+  { intros arg. pose proof (equeue_push_refines v (wh_e s) (wh_sent s) pre (wh_cur s) arg Hv Hr Hlt) as Hp.
+    destruct (equeue_push v (wh_e s) arg) as [[r e']| |]; try contradiction.
+    cbn [push_ok] in Hp. destruct Hp as (Hp & _). destruct r; try exact I.
+    destruct (norm_arg arg); contradiction. }
+  destruct o as [[|x d]| |n]; cbn [wh_step].
+  - specialize (Hpush None). destruct (equeue_push v (wh_e s) None) as [[[k|er|] e']| |]; try contradiction; eexists; reflexivity.
+  - specialize (Hpush (Some (x :: d))).
+    destruct (equeue_push v (wh_e s) (Some (x :: d))) as [[[k|er|] e']| |]; try contradiction; eexists; reflexivity.
+  - specialize (Hpush None). destruct (equeue_push v (wh_e s) None) as [[[k|er|] e']| |]; try contradiction; eexists; reflexivity.
+  - destruct Hr as [[Hq Hl] Hinv]. pose proof Hq as (Hb & Hlm & Ho). unfold wire_writer.
+    set (k := Nat.min (edone (eq_st (wh_e s))) n).
+    destruct (Nat.eqb_spec k 0); [eexists; reflexivity|].
+    pose proof (qget_spec (eq_q (wh_e s)) 0 k Hq ltac:(lia)) as Hg.
+    destruct (Nat.leb_spec (0 + k) (qlen (eq_q (wh_e s)))) as [_|Hbad]; [|unfold k in Hbad; lia].
+    rewrite Hg. destruct (qcrop0_ok (eq_q (wh_e s)) k Hq ltac:(unfold k; lia)) as (o & -> & _).
+    cbn [bind]. eexists; reflexivity.
 Qed.
 
 Theorem wh_run_inv v : variant_ok v -> forall ops s s', wh_inv v s -> wh_run v s ops = Some s' -> wh_inv v s'.
@@ -196,9 +206,9 @@ Qed.
 Definition wh_init (buf : mem) (off : nat) : wh :=
   mkwh (mkeq (mkq buf 0 (length buf) off) (mke 0 0 0)) [] [] [].
 
-Lemma wh_init_inv v buf off : off <= length buf -> wh_inv v (wh_init buf off).
+Lemma wh_init_inv v buf off : off < length buf -> wh_inv v (wh_init buf off).
 Proof.
-  intros Ho. exists []. split; [constructor|]. split; [split|]; cbn [wh_init wh_e eq_q eq_st wh_sent wh_cur].
+  intros Ho. split; [exact Ho|]. exists []. split; [constructor|]. split; [split|]; cbn [wh_init wh_e eq_q eq_st wh_sent wh_cur].
   - unfold qinv. cbn [qbuf qlen qmax qoff]. lia.
   - reflexivity.
   - apply EI_idle; try reflexivity. cbn [app]. apply length_zero_iff_nil.
@@ -213,20 +223,20 @@ Proof.
   destruct Hl as [_ _ Hc _ _]. cbn [shift_st escr] in Hc. unfold shift_st in Hc. cbn [escr] in Hc. lia.
 Qed.
 
-(* MAIN (partial: out-of-band branch excluded by the run guard): every writer history on a ring
+(* MAIN: every writer history on a ring
    of any size and offset leaves transport bytes + ring contents = the frames of the completed
    messages, in order, whenever the encoder is between messages *)
-Theorem writer_history_stream v buf off ops s : variant_ok v -> off <= length buf ->
+Theorem writer_history_stream v buf off ops s : variant_ok v -> off < length buf ->
   wh_run v (wh_init buf off) ops = Some s ->
   wh_cur s = [] -> escr (eq_st (wh_e s)) = 0 ->
   frames_of v (wh_done s) (wh_sent s ++ contents (eq_q (wh_e s))).
 Proof.
   intros Hv Ho Hrun Hc Hs.
-  destruct (wh_run_inv v Hv ops _ s (wh_init_inv v buf off Ho) Hrun) as (pre & Hf & Hr).
+  destruct (wh_run_inv v Hv ops _ s (wh_init_inv v buf off Ho) Hrun) as (_ & pre & Hf & Hr).
   rewrite Hc in Hr. rewrite (rinv_idle_stream v pre _ _ Hr Hs). exact Hf.
 Qed.
 
-Theorem writer_history_delivered v buf off ops s : variant_ok v -> off <= length buf ->
+Theorem writer_history_delivered v buf off ops s : variant_ok v -> off < length buf ->
   wh_run v (wh_init buf off) ops = Some s ->
   wh_cur s = [] -> escr (eq_st (wh_e s)) = 0 ->
   exists bodies, split_frames [] (wh_sent s ++ contents (eq_q (wh_e s))) = (bodies, []) /\
@@ -239,4 +249,13 @@ Proof.
   intros Hv Ho Hr Hc Hs.
   destruct (wire_splits v _ _ (writer_history_stream v buf off ops s Hv Ho Hr Hc Hs)) as (bodies & Hsp & Hb).
   exists bodies. split; [exact Hsp|]. split; [exact Hb|]. exact (bodies_delivered v _ _ Hb).
+Qed.
+
+(* the run never stops: no history makes the ring-level model fault or abort *)
+Theorem wh_run_total v : variant_ok v -> forall ops s, wh_inv v s -> exists s', wh_run v s ops = Some s'.
+Proof.
+  intros Hv. induction ops as [|o ops IH]; intros s Hi; cbn [wh_run].
+  - eexists; reflexivity.
+  - destruct (wh_step_total v s o Hv Hi) as (s1 & E). rewrite E.
+    apply IH. apply (wh_step_inv v s o s1 Hv Hi E).
 Qed.
